@@ -278,7 +278,8 @@ def run_check(pid, tier):
     # group violations by (job, op, kf) ; replay up to 2 per class before believing them
     classes = {}
     for v in res.viols:
-        classes.setdefault((v["job"]["name"], v["op"], v["kf"]), []).append(v)
+        v["sub"] = re.split(r"[:\[( ]", v["msg"], 1)[0][:63]
+        classes.setdefault((v["job"]["name"], v["op"], v["kf"], v["sub"]), []).append(v)
     for key in sorted(classes):
         vs = classes[key]
         job = vs[0]["job"]
@@ -292,7 +293,7 @@ def run_check(pid, tier):
             res.errors.append("violation did not reproduce on replay: %s %s %s" % (key, vs[0]["args"], vs[0]["msg"]))
             continue
         f = kf_match(pid, confirmed, findings) if confirmed["kf"] != "-" else None
-        cnt = res.stats.get("viol.%s.%s" % (confirmed["op"], confirmed["kf"]), len(vs))
+        cnt = res.stats.get("viol.%s.%s.%s" % (confirmed["op"], confirmed["kf"], confirmed["sub"]), len(vs))
         if f is not None:
             known_hit.setdefault(f["id"], [f, 0, confirmed])
             known_hit[f["id"]][1] += cnt
